@@ -296,6 +296,50 @@ def pollute_earlier_environments():
     return n
 
 
+def setup_derived_event(iso):
+    """The Kinderzuschlag maximum of the environment of one day with the parameters it is derived from (Setup.tla)."""
+    from _gettsim.policy_environment import _load_parameter_group_from_yaml
+
+    from enc import dec
+
+    d = datetime.date.fromisoformat(iso)
+    try:
+        env = gs.fresh_env(iso)[0]
+    except Exception:  # noqa: BLE001
+        return None
+    raw = _load_parameter_group_from_yaml(d, "kinderzuschl")
+    rawv = raw.get("maximum")
+    obs = env.get("kinderzuschl", {}).get("maximum")
+    ex = env.get("kinderzuschl", {}).get("existenzminimum", {})
+    kg = env.get("kindergeld", {}).get("kindergeld")
+    kg1 = (kg.get(1) if isinstance(kg, dict) else kg) or 0.0
+    num = lambda x: isinstance(x, (int, float, np.integer, np.floating)) and not isinstance(x, bool)  # noqa: E731
+    g = lambda a, b: ex.get(a, {}).get(b, 0.0) if isinstance(ex.get(a), dict) else 0.0  # noqa: E731
+    return {"k": "kizmax", "iso": iso, "year": d.year, "rawHas": bool(num(rawv)), "raw": dec(float(rawv) if num(rawv) else 0.0), "obsHas": bool(num(obs)), "obs": dec(float(obs) if num(obs) else 0.0),
+            "regel": dec(float(g("regelsatz", "kinder"))), "kdu": dec(float(g("kosten_der_unterkunft", "kinder"))), "heiz": dec(float(g("heizkosten", "kinder"))), "kg1": dec(float(kg1))}
+
+
+def check_setup_derived(chk, quick):
+    days = [f"{y}-{md}" for y in range(2005, 2026) for md in (("01-01",) if quick and y < 2019 else ("01-01", "07-01"))]
+    evs = [e for e in pool_map(setup_derived_event, days) if e]
+    tf, of = chk.work / "setup.json", chk.work / "setup.out.json"
+    tlc.write_json(tf, evs)
+    r = tlc.run("Trace_Setup", "Trace_Setup.cfg", workdir=chk.work, env={"TRACE_FILE": str(tf), "OUT_FILE": str(of)}, timeout=900)
+    if r.violated:
+        raise tlc.TLCFailure(f"Trace_Setup: {r.violated}\n{r.out[-1500:]}")
+    o = tlc.read_json(of)
+    chk.count(len(evs))
+    chk.cov["traces_validated_against_impl"] += len(evs)
+    chk.notes["setup_derived"] = {"days": len(evs), "days_with_derived_maximum": o["derived"]}
+    seen = set()
+    for b in o["bad"]:
+        e = evs[b["e"] - 1]
+        sig = f"C07|{b['c']}|year={e['year']}"
+        if sig not in seen:
+            seen.add(sig)
+            chk.violation(sig, f"the environment of {e['iso']} holds a Kinderzuschlag maximum that is not the stated / derived one", {"date": e["iso"], "event": {k: str(v) for k, v in e.items()}})
+
+
 def run(tier):
     chk = Check("C07", tier, LEVEL)
     rnd = random.Random(chk.seed * 31337 + 7)
@@ -333,6 +377,7 @@ def run(tier):
     for d, f in jobs:
         chk.distinct(d)
     report(chk, events, bad)
+    check_setup_derived(chk, quick)
     chk.sample({"event": {k: events[0][k] for k in ("k", "iso", "group", "src")}, "n_params": len(events[0]["params"])})
     chk.sample({"days": [j[0] for j in jobs[:12]]})
     chk.cov["rule"] = (
